@@ -39,7 +39,10 @@ Layouts == <<
   << Feat("g1", "CDS", TRUE, 1, <<<<2, 15>>>>, 3, 0), Feat("g2", "CDS", TRUE, -1, <<<<25, 28>>, <<19, 24>>>>, 2, 0) >>,
   << Feat("g2", "CDS", TRUE, -1, <<<<25, 29>>, <<19, 24>>>>, 3, 1) >>,
   \* two CDS of one gene (same /gene, same Name), the second inside the span of the first but read differently (pp1ab / pp1a in RefSeq)
-  << Feat("g1", "CDS", TRUE, 1, <<<<4, 9>>, <<13, 15>>>>, 1, 0), Feat("g1", "CDS", TRUE, 1, <<<<4, 15>>>>, 1, 0), Feat("g2", "CDS", TRUE, -1, <<<<19, 30>>>>, 1, 0) >>
+  << Feat("g1", "CDS", TRUE, 1, <<<<4, 9>>, <<13, 15>>>>, 1, 0), Feat("g1", "CDS", TRUE, 1, <<<<4, 15>>>>, 1, 0), Feat("g2", "CDS", TRUE, -1, <<<<19, 30>>>>, 1, 0) >>,
+  \* features listed from the far end of the genome to the near one (a GenBank table need not be sorted; GFF3 rows are sorted by the reader)
+  << Feat("g2", "CDS", TRUE, -1, <<<<19, 30>>>>, 1, 0), Feat("g1", "CDS", TRUE, 1, <<<<4, 15>>>>, 1, 0) >>,
+  << Feat("g2", "CDS", TRUE, -1, <<<<25, 30>>, <<19, 24>>>>, 1, 0), Feat("g1b", "CDS", TRUE, 1, <<<<7, 15>>>>, 1, 0), Feat("g1", "CDS", TRUE, 1, <<<<4, 9>>, <<13, 15>>>>, 1, 0) >>
 >>
 GffOnly(k) == k = 7          \* an unnamed CDS has no GenBank form
 
@@ -91,7 +94,8 @@ ShiftRows == << QRowV(ShiftGap, Change(17, "C"), <<"A", "-">>), QRowV(ShiftGap, 
                 QRowV(ShiftGap, Genome, <<"A", "-">>), QRowV(ShiftGap, Genome, <<"-", "A">>) >>
 ShiftVecs == {[id |-> "shift-" \o ToString(k), kind |-> "anno", R |-> RefRow(ShiftGap), qs |-> ShiftRows, feats |-> Layouts[k], runs |-> RunsFor(k)] : k \in {1, 2, 4}}
 RefNamedVecs == {[id |-> "refnamed-" \o ToString(k), kind |-> "anno", R |-> RefRow(Gappings[1]), qs |-> SubSeq(Rows(Gappings[1]), 30, 50), feats |-> Layouts[k],
-                  refnamed |-> 3, runs |-> << Run("samvar-annoref", "gb", TRUE, -1, -1, FALSE, 0, 1, FALSE), Run("samvar-annoref", "gff", TRUE, -1, -1, FALSE, 0, 2, FALSE),
+                  refnamed |-> 3, runs |-> << Run("variants-annoref", "gb", TRUE, -1, -1, FALSE, 0, 1, FALSE), Run("variants-annoref", "gff", TRUE, -1, -1, FALSE, 0, 2, FALSE),
+                                             Run("samvar-annoref", "gb", TRUE, -1, -1, FALSE, 0, 1, FALSE), Run("samvar-annoref", "gff", TRUE, -1, -1, FALSE, 0, 2, FALSE),
                                              Run("samvar-annoref", "gb", FALSE, -1, -1, TRUE, 0, 1, FALSE), Run("samvar-annoref", "gff", FALSE, -1, -1, TRUE, 0, 1, FALSE) >>] : k \in {1, 2}}
 AnnoVecs == ShiftVecs \cup RefNamedVecs \cup {[id |-> "anno-" \o ToString(k) \o "-" \o ToString(g), kind |-> "anno", R |-> RefRow(Gappings[g]), qs |-> Rows(Gappings[g]),
               feats |-> Layouts[k], runs |-> RunsFor(k)] : k \in 1..Len(Layouts), g \in 1..Len(Gappings)}
